@@ -130,13 +130,26 @@ type condHandle struct {
 	n int
 }
 
-func setCOpt(c stackage.Condition, f, m string) {
+func setCOpt(c stackage.Condition, f, m string, dep ...bool) {
 	var arg []bool
 	switch m {
 	case "on":
 		arg = []bool{true}
 	case "off":
 		arg = []bool{false}
+	}
+	if len(dep) > 0 && dep[0] {
+		switch f {
+		case "paren":
+			c.Paren(arg...)
+			return
+		case "nspad":
+			c.NoPadding(arg...)
+			return
+		case "nnest":
+			c.NoNesting(arg...)
+			return
+		}
 	}
 	switch f {
 	case "paren":
@@ -248,7 +261,7 @@ func (condMachine) Apply(hh Handle, _ string, c Call) (ret []string) {
 	case "SetExpression":
 		h.c.SetExpression(ConcEx(c.Str("x")))
 	case "SetOpt":
-		setCOpt(h.c, c.Str("f"), c.Str("m"))
+		setCOpt(h.c, c.Str("f"), c.Str("m"), c.Bool("dep"))
 	case "SetErr":
 		if c.Bool("on") {
 			h.c.SetErr(errUser)
